@@ -22,17 +22,17 @@ type SolverCfg struct {
 }
 
 type SolverPool struct {
-	sem      chan struct{}
-	cacheDir string
-	tmpDir   string
-	timeout  float64
-	seed     int
-	cfgs     []SolverCfg
-	mu       sync.Mutex
-	stats    map[string]*SolverStat
-	noCache  bool
+	sem       chan struct{}
+	cacheDir  string
+	tmpDir    string
+	timeout   float64
+	seed      int
+	cfgs      []SolverCfg
+	mu        sync.Mutex
+	stats     map[string]*SolverStat
+	noCache   bool
 	twoSolver bool
-	inflight map[string]*flight
+	inflight  map[string]*flight
 }
 
 type flight struct {
